@@ -190,6 +190,18 @@ func casesC01(g *Gen) []*Case {
 		"{{ 7 / 2 }} {{ (0 - 7) / 2 }} {{ (0 - 7) % 2 }}":     "3 -3 -1",
 		"{{ 7 / 2 * 3 }} {{ 2 + 3 * 4 - 1 }} {{ 10 - 2 - 3 }}": "9 13 5",
 	}
+	// literal spellings: leading zeros are decimal, a float keeps its digits
+	lits := map[string]string{
+		"{{ 010 + 1 }}": "11", "{{ 08 }}|{{ 09 + 1 }}": "8|10", "{{ 007 * 2 }}": "14", "{{ 00 }}": "0", "{{ 0123456789 }}": "123456789",
+		"{{ 010.5 + 1.0 }}": "11.5", "{{ 1.50 }}": "1.5", "{{ 0.10 + 0.20 }}": "0.30000000000000004", "{{ [010, 011][1] }}": "11",
+		"{{ x = 0017 }}{{ x }}": "17", "{{ 1000000 * 1000000 }}": "1000000000000",
+	}
+	for s, want := range lits {
+		c := evalCase("literal_spellings", s, sc.data)
+		c.Oracle = expectOut(want)
+		cs = append(cs, c)
+	}
+	// float comparisons with NaN and infinities from the data and from arithmetic
 	_ = math.MaxInt64
 	for s, want := range wrap {
 		c := evalCase("wraparound_rows", s, sc.data)
